@@ -296,13 +296,7 @@ theorem raftListFrom_eq_listPage (keys : List Key) (hs : Sorted keys) (seek p af
         exact klt_of_lt_of_le ha (firstSeg_le_self t)
       exact kle_trans hsafe.2 (kle_of_lt ((append_klt_append_left p).mpr h1))
 
-theorem raftSeek_hasPrefix (p after : Key) : hasPrefix p (raftSeek p after) = true := by
-  unfold raftSeek
-  split
-  · exact hasPrefix_iff.mpr ⟨[], by simp⟩
-  · simp only
-    split
-    · assumption
-    · exact hasPrefix_iff.mpr ⟨[], by simp⟩
+theorem raftSeek_safe (p after : Key) : SeekSafe (raftSeek p after) p after :=
+  ⟨hasPrefix_append p after, kle_refl _⟩
 
 end Obao.Listing
